@@ -11,6 +11,7 @@ def run_variant(diff, run_tests=False, props_override=None):
     for l in open(diff):
         m = re.match(r'# (\w+): (.*)', l)
         if m: meta[m.group(1)] = m.group(2).strip()
+        if l.startswith('diff --git') or l.startswith('--- '): break
     props = props_override or meta.get('properties', '').split(',')
     tmp = tempfile.mkdtemp(prefix='h263-variant-')
     try:
@@ -67,6 +68,18 @@ def main():
                     if not okk:
                         bad += 1
                         for v in pr['violations'][:5]: print('         ', v[:300])
+    # the seeded changes of the sub-agents are regression mutants too: each must be caught by the check of its target property
+    for d in sorted(glob.glob(os.path.join(HERE, 'seeded', '*'))):
+        name = 'seeded_' + os.path.basename(d)
+        if args and not any(a in name for a in args): continue
+        meta = json.load(open(os.path.join(d, 'meta.json')))
+        r = run_variant(os.path.join(d, 'patch.diff'), False, props_override=[meta['property']])
+        if 'error' in r:
+            print('ERROR   %-40s %s' % (name, r['error'])); bad += 1; continue
+        for p, pr in r['props'].items():
+            okk = pr['rc'] == 1 and pr['violations']
+            print('%s %-40s %s rc=%d %d violation(s)' % ('CAUGHT ' if okk else 'MISSED ', name, p, pr['rc'], len(pr['violations'])))
+            if not okk: bad += 1
     return 1 if bad else 0
 
 if __name__ == '__main__':
